@@ -142,6 +142,9 @@ def find_witness(m, divprem, job):
                     v = Fraction(1, 2) + Fraction((h >> 40) % 513, 512)
                 else:
                     v = Fraction(((h >> 40) % 2049) - 1024, 512)
+                if t.args[0].startswith('tol'):
+                    # tolerances: also try very small / very large values (they steer which exit of a loop is taken)
+                    v = [v, Fraction(1, 1 << 20), Fraction(1 << 20), Fraction(1, 1 << 20), Fraction(1, 64), Fraction(64), v, Fraction(1, 1 << 10)][attempt % 8]
                 env[t.args[0]] = v
             try:
                 val, ufv = evaluate_all(conds, {k: float(v) for k, v in env.items()} if approx else env, approx=approx)
